@@ -194,20 +194,56 @@ prop("C01", engine="e1", rule=(
     "and operator() and compared with the brute-force reference model; "
     "non-trivial = some called tuple has >= 2 applicable definitions; "
     "distinct = canonical hash of (registry, configuration)"),
-    quick=dict(cases=3000, size=60), thorough=dict(cases=100000, size=100))
+    quick=dict(cases=20000, size=60), thorough=dict(cases=300000, size=100))
 prop("C03", engine="e1", rule=(
     "random registries; after update the next pointer written for every "
     "definition is compared with the model's select() over strictly more "
     "general definitions; non-trivial = some definition has >= 2 strictly "
     "more general definitions"),
-    quick=dict(cases=3000, size=60), thorough=dict(cases=100000, size=100))
+    quick=dict(cases=30000, size=60), thorough=dict(cases=400000, size=100))
 prop("C04", engine="e1", rule=(
     "lattice-biased random registries, canonical and arbitrary legal "
     "presentations; slot injectivity per class from installed slots, "
     "bounds-checked re-implementation of the table walk, real resolve under "
     "ASan; non-trivial = a class with >= 2 direct bases exists and >= 2 "
     "(method, parameter) pairs share a class"),
-    quick=dict(cases=3000, size=60), thorough=dict(cases=100000, size=100))
+    quick=dict(cases=8000, size=60), thorough=dict(cases=150000, size=100))
+prop("C02", engine="e1", rule=(
+    "random registries biased to gaps and ambiguities (duplicated "
+    "definitions included), all signature shapes, error facets vectored / "
+    "deprecated call_error / throw_error; every unresolvable tuple (up to 6 "
+    "per method) is called: no body runs, one resolution error with the "
+    "model's status, arity = number of virtual parameters, types = dynamic "
+    "ids of the virtual arguments in order, a later call still dispatches; "
+    "for one case in eight the handler returns in a forked child which must "
+    "die by abort; non-trivial = an erroring method with a non-virtual "
+    "parameter or arity >= 2"),
+    quick=dict(cases=10000, size=60), thorough=dict(cases=150000, size=100))
+prop("C06", engine="e1", rule=(
+    "random registries x 2..5 random permutations of class-record, method "
+    "and definition registration orders (all permutations for one case in "
+    "six, drawn with <= 3 classes, <= 2 methods, <= 3 definitions each); "
+    "metamorphic oracle: dispatch of every tuple and next of every "
+    "definition equal across orders; non-trivial = a non-identity "
+    "permutation and a tuple with >= 3 applicable definitions"),
+    quick=dict(cases=6000, size=60), thorough=dict(cases=100000, size=100))
+prop("C08", engine="e1", rule=(
+    "one random graph registered canonically and through a random legal "
+    "presentation (1..3 records per class, any superset of the direct bases "
+    "within the transitive bases, with or without the class itself, "
+    "duplicates, any order); dispatch and next equal between the two and "
+    "equal to the model, acceptance relation = derived classes, slot "
+    "injectivity and bounds, report; non-trivial = the presentation omits "
+    "an indirect base of a class with >= 2 direct bases"),
+    quick=dict(cases=6000, size=60), thorough=dict(cases=100000, size=100))
+prop("C17", engine="e1", rule=(
+    "random registries with random abstract flags (roots and middles "
+    "biased abstract), gappy and deliberately ambiguous (duplicated) "
+    "definition sets; the four report flags and the cell count are compared "
+    "with the model, cells also with the number of cells built; "
+    "non-trivial = at least one abstract class and a NONE or AMBIGUOUS "
+    "tuple"),
+    quick=dict(cases=20000, size=60), thorough=dict(cases=300000, size=100))
 
 
 # --------------------------------------------------------------------------
@@ -427,6 +463,77 @@ def check(pid, tier, seed):
     return 0
 
 
+LEVEL_TEXT = (
+    "generated-input search (property-based testing) against an explicit "
+    "oracle; evidence counts the cases, the distinct non-trivial ones and "
+    "shows samples. It can find violations within the generated bounds and "
+    "cannot prove their absence.")
+
+TITLES = {}
+
+
+def write_manifest():
+    props = [json.loads(l) for l in open(os.path.join(ROOT,
+                                                      "properties.jsonl"))]
+    checks, na = [], []
+    for p in props:
+        pid = p["id"]
+        if pid in PROPS:
+            c = PROPS[pid]
+            checks.append({
+                "property_id": pid,
+                "quick_cmd": "python3 verif.py check %s --tier quick" % pid,
+                "thorough_cmd": "python3 verif.py check %s --tier thorough"
+                                % pid,
+                "evidence_file": "evidence/%s.json" % pid,
+                "replay_cmd_template": "python3 verif.py replay {path}",
+                "engine": c["engine"],
+                "level_claimed": {
+                    "category": "exploration",
+                    "text": c.get("level_text", LEVEL_TEXT),
+                    "design_ref": "DESIGN.md section 5, " + pid},
+                "level_note": c.get("note", (
+                    "Trusted: the reference model / oracle of the check, the "
+                    "harness, rapidcheck, the sanitizers. Bounded registries; "
+                    "no proof of absence.")),
+                "technique": c.get("technique",
+                                   "property-based testing (rapidcheck) with "
+                                   "a reference-model oracle"),
+            })
+        else:
+            na.append({"property_id": pid, "reason": NOT_YET.get(
+                pid, "check not built yet (work in progress; the technique "
+                     "applies, see DESIGN.md section 5)")})
+    m = {
+        "version": 1,
+        "setup_cmd": "python3 verif.py setup",
+        "hooks": {
+            "guard": GUARD,
+            "enable": "checks compile against /repo/include with -D" + GUARD,
+            "baseline_off_cmd": "cmake --build /repo/_build && ctest "
+                                "--test-dir /repo/_build -j8 --timeout 900",
+            "source_commits": HOOK_COMMITS,
+            "add_only": True},
+        "engines": [
+            {"name": "e1", "path": "harness/e1",
+             "serves_properties": sorted(k for k, v in PROPS.items()
+                                         if v["engine"] == "e1"),
+             "kind_free_text": "synthetic registries: run-time generated "
+             "class graphs, methods and definitions fed to the real compiler "
+             "and dispatch templates under 12 policy configurations; "
+             "rapidcheck-driven, brute-force reference model"}],
+        "checks": checks,
+        "not_applicable": na,
+        "notes": "See DESIGN.md. known_findings.json lists genuine defects "
+                 "(fixed ones with their fix: commit)."}
+    with open(os.path.join(ROOT, "MANIFEST.json"), "w") as f:
+        json.dump(m, f, indent=1)
+
+
+NOT_YET = {}
+HOOK_COMMITS = []
+
+
 def main():
     args = sys.argv[1:]
     if not args:
@@ -435,6 +542,9 @@ def main():
     if args[0] == "setup":
         for e in engines():
             build(e)
+        return 0
+    if args[0] == "manifest":
+        write_manifest()
         return 0
     if args[0] == "build":
         print(build(args[1]))
